@@ -61,6 +61,8 @@ structure FilterCtx where
   script : String
   entity : Nat
   entering : Bool
+  /-- `TaskAndThreadKeeper._closed`: the plugin context has exited (the script and every registered thread/task have ended) -/
+  closed : Bool := false
   deriving DecidableEq, Repr
 
 def addModule (fs : FilterState) (m : Option String) : FilterState :=
@@ -78,7 +80,8 @@ def filerByModule (cx : FilterCtx) (fs : FilterState) (fr : FrameDesc) : Option 
 /-- one implementation of the hook `filter`, selected by the plugin's NAME; a plugin this model does not know has no
 `filter` implementation (contributes `None`) -/
 def filterImpl (name : String) (cx : FilterCtx) (fs : FilterState) (fr : FrameDesc) : Option Bool × FilterState :=
-  if name = "FilterLambda" then ((if fr.func = "<lambda>" then some true else none), fs)
+  if name = "TaskAndThreadKeeper" then ((if cx.closed then some true else none), fs)
+  else if name = "FilterLambda" then ((if fr.func = "<lambda>" then some true else none), fs)
   else if name = "FilterMainScript" then (some (decide (fr.module ≠ some cx.script)), fs)
   else if name = "FilterByModuleName" then ((if matchAny fr.module modulesToSkip then some true else none), fs)
   else if name = "FilerByModule" then filerByModule cx fs fr
